@@ -30,6 +30,15 @@ ASSUMPTIONS = ["bitwise clauses: IEEE-754 binary64, round to nearest even, no fu
 TRUSTED = ["props/c04.py `pyref`: the property's definitions written a second time in Python (exact Fractions)"]
 
 Z = Fraction(0)
+# clauses / families that wait for a patch of the integrator: while an id is listed here the family is not requested;
+# LP_ASSUME_FIXED=<id,...> requests it (rehearsal against a patched tree)
+PENDING = {"P13"}        # P13: Matrix::Norm over the whole double range (patch /tmp/fixprop-C04-2)
+
+
+def pending(pid):
+    import os
+    return pid in PENDING and pid not in os.environ.get("LP_ASSUME_FIXED", "").split(",")
+
 
 
 # --------------------------------------------------------------------------------------------------
@@ -70,10 +79,14 @@ def entry(rng, fam):
         return rng.choice([-1.0, 1.0]) * rng.choice(SUB_BIG)
     if fam == "dy":
         c = rng.random()
+        if c < 0.03:
+            return -0.0          # the sign of a zero is not part of the value: exercised
         if c < 0.12:
             return 0.0
         return dyadic(rng, -16, 16, 4)
     c = rng.random()
+    if c < 0.03:
+        return -0.0
     if c < 0.1:
         return 0.0
     if c < 0.2:
@@ -493,6 +506,46 @@ def layout_block(R, rng, thorough):
         R.append("c04.blockr %d %s" % (nr, " ".join(row_tok(row) for row in g)))
 
 
+
+def gaps_block(R, rng, thorough):
+    """audit 2, check-side gaps: Cross = skew(u) v and Dot(p,q) = row*column (p != q) at zero slack; non-conformable partners
+    with the same number of elements; aliasing spellings; Matrix::Norm over the whole double range (pending P13)"""
+    for _ in range(200 if thorough else 50):
+        fam = rng.choice(["dy", "mx", "mx", "sbL"])
+        fq = {"sbL": "sbR"}.get(fam, fam)
+        n = rng.randint(1, 7)
+        R.append("c04.crossdot %s %s %s %s" % (lst(rvec(rng, 3, fam)), lst(rvec(rng, 3, fq)), lst(rvec(rng, n, fam)), lst(rvec(rng, n, fq))))
+    # same element count, different shape: every spelling must stop with the diagnostic
+    for (s1, s2) in [((2, 6), (3, 4)), ((1, 4), (2, 2)), ((2, 2), (1, 4)), ((2, 2), (4, 1)), ((3, 4), (4, 3)), ((1, 6), (2, 3)), ((6, 1), (1, 6)),
+                     ((2, 3), (3, 2)), ((4, 4), (2, 8)), ((1, 1), (1, 1))]:
+        fam = rng.choice(["dy", "mx"])
+        a = mat_tok(rmat(rng, s1[0], s1[1], fam)); b = mat_tok(rmat(rng, s2[0], s2[1], fam))
+        for sp in "moa":
+            R.append("c04.plus %s %s %s" % (sp, a, b)); R.append("c04.minus %s %s %s" % (sp, a, b))
+        for sp in "mo":
+            R.append("c04.mul %s %s %s" % (sp, a, b))
+        R.append("c04.meq %s %s" % (a, b))
+        R.append("c04.mchain +- %s %s %s" % (a, a, b))
+    # aliasing
+    for _ in range(60 if thorough else 16):
+        fam = rng.choice(["dy", "mx"])
+        m, n = rng.randint(1, 5), rng.randint(1, 5)
+        A = rmat(rng, m, n, fam); S = rmat(rng, m, m, fam)
+        R.append("c04.alias pa %s 0" % mat_tok(A)); R.append("c04.alias ma %s 0" % mat_tok(A))
+        R.append("c04.alias ss %s 0" % mat_tok(S)); R.append("c04.alias vs %s %s" % (mat_tok(S), lst(rvec(rng, m, fam))))
+        R.append("c04.alias vv %s %s" % (mat_tok(S), lst(rvec(rng, n, fam))))
+    R.append("c04.alias ss %s 0" % mat_tok(rmat(rng, 2, 3, "dy")))          # S*S of a non-square S: diagnostic
+    R.append("c04.alias vs %s %s" % (mat_tok(rmat(rng, 2, 2, "dy")), lst(rvec(rng, 3, "dy"))))
+    if not pending("P13"):
+        for _ in range(200 if thorough else 60):
+            m, n = rng.randint(1, 4), rng.randint(1, 4)
+            k = rng.choice([-300, -200, -160, 0, 150, 200, 300])
+            M = Rows([[rng.choice([-1, 1]) * rng.uniform(1, 9) * 10.0 ** (k + rng.randint(-3, 3)) if rng.random() > 0.1 else 0.0 for _ in range(n)] for _ in range(m)], n)
+            if sum(Fraction(x) ** 2 for r in M for x in r) < Fraction(10) ** 614:
+                R.append("c04.mnorm " + mat_tok(M))
+        R.append("c04.mnorm 1 2 %s %s" % (hx(3e200), hx(4e200))); R.append("c04.mnorm 1 2 %s %s" % (hx(3e-170), hx(4e-170)))
+
+
 def guard_block(R, rng, m, n, fam):
     """class A: conformable and non-conformable partners of an m x n matrix"""
     A = rmat(rng, m, n, fam); a = mat_tok(A)
@@ -602,6 +655,7 @@ def generate(tier, seed, ctx):
     wide_norm_block(R, rng, thorough)
     normalized_scale_block(R, rng, thorough)
     rowcol_block(R, rng, thorough)
+    gaps_block(R, rng, thorough)
     pred_block(R)
     # the shortest stale-state histories as a fixed corpus
     R.append("c04.vhist 2 0x1.8p+1 0x1p+2 3 N - 2 0x1.8p+1 0x0p+0 N")
@@ -849,6 +903,26 @@ def pyref(op, a):
         if i >= r:
             return ERR
         return UNDEF if j >= k else V([(A[i][j], 0)], 0)
+    if op == "c04.crossdot":
+        u, v, p_, q_ = c.vec(), c.vec(), c.vec(), c.vec()
+        if len(u) != 3 or len(v) != 3 or len(p_) != len(q_):
+            return ERR
+        return V([("int", 1)] * 2, 0)
+    if op == "c04.alias":
+        k_ = c.tok(); (r, k, A) = c.mat(); v = c.vec()
+        if k_ == "pa":
+            return rM(r, k, lambda i, j: (2 * A[i][j], 2 * abs(A[i][j])), 1)
+        if k_ == "ma":
+            return rM(r, k, lambda i, j: (Z, 0), 0)
+        if k_ == "ss":
+            if r != k:
+                return ERR
+            return rM(r, r, lambda i, j: acc(A[i][t] * A[t][j] for t in range(r)), r + 2)
+        if k_ == "vs":
+            if len(v) != r:
+                return ERR
+            return rV(k, lambda i: acc(v[j] * A[j][i] for j in range(r)), r + 2)
+        return rV(len(v), lambda i: (2 * v[i], 2 * abs(v[i])), 1)
     if op == "c04.rowcol":
         (r, k, A) = c.mat(); v = c.vec(); w = c.vec()
         if len(v) != k or len(w) != r:
@@ -1550,6 +1624,7 @@ def check_bitwise(op, a, ref, ti):
 LAW_NAMES = ["transpose(A*B) == transpose(B)*transpose(A)", "A*I == A", "I*A == A", "transpose(transpose(A)) == A"]
 
 CHAIN_OPS = ("c04.mchain", "c04.vchain")
+LAYOUT_FROM_REF = CHAIN_OPS + ("c04.alias",)
 INT_HEADER = {"c04.plus": 2, "c04.minus": 2, "c04.mul": 2, "c04.smul": 2, "c04.sdiv": 2, "c04.transpose": 2,
               "c04.subm": 2, "c04.delrow": 2, "c04.delcol": 2, "c04.identity": 2, "c04.diag": 2, "c04.const": 2,
               "c04.ctor": 2, "c04.block": 2, "c04.blockr": 2, "c04.outer": 2, "c04.matvec": 1, "c04.vecmat": 1, "c04.retrow": 1,
@@ -1634,9 +1709,9 @@ def check_sq(ref, ti, mult=1):
 def model_items(op, tm):
     """model answer tokens -> same item layout as pyref (ints for the header, Fractions after)"""
     h = INT_HEADER.get(op, 0)
-    if op in CHAIN_OPS:
+    if op in LAYOUT_FROM_REF:
         return None
-    if op in ("c04.preds", "c04.veq", "c04.meq", "c04.laws", "c04.rowcol"):
+    if op in ("c04.preds", "c04.veq", "c04.meq", "c04.laws", "c04.rowcol", "c04.crossdot"):
         return [("int", int(t)) for t in tm]
     return [("int", int(t)) for t in tm[:h]] + [(fr(t), None) for t in tm[h:]]
 
@@ -1721,6 +1796,12 @@ def oracle(op, a, impl, ref):
     if ref[0] == "sq":
         d = check_sq(ref, ti)
         return ("Norm is not the root of the sum of squares", d) if d else None
+    if op == "c04.crossdot":
+        names = ["Cross(u,v) == skew(u)*v", "Dot(p,q) == row(p)*column(q)"]
+        bad = [names[i] for i, t in enumerate(ti) if t != "1"]
+        if len(ti) != 2 or bad:
+            return ("product does not coincide with the product of the corresponding matrices: " + "; ".join(bad), "")
+        return None
     if op == "c04.rowcol":
         names = ["A*v == A*column(v)", "w*A == row(w)*A", "Outer(w,v) == column(w)*row(v)", "v.v == row(v)*column(v)"]
         bad = [names[i] for i, t in enumerate(ti) if t != "1"]
